@@ -27,6 +27,9 @@ var footprintModules = map[string][]string{
 	"C14": {"nft"}, "C15": {"mt"}, "C17": {"oracle"}, "C18": {"random"}, "C19": {"record"},
 }
 
+// theCtx: the one analysis context of the process (for helpers without a receiver)
+var theCtx *Ctx
+
 func register(id string, needPkg, needSSA bool, level string, f propFunc) {
 	props[id] = &propDef{id: id, needPkg: needPkg, needSSA: needSSA, run: f, level: level}
 }
@@ -66,6 +69,7 @@ func main() {
 		needSSA = needSSA || d.needSSA
 	}
 	cx := &Ctx{Repo: *repo, Verif: *verif, Tier: *tier}
+	theCtx = cx
 	if needPkg {
 		p, err := loadProgram(*repo, *tier == "thorough" && os.Getenv("IRISLINT_WHOLE") == "1", needSSA)
 		if err != nil {
